@@ -281,7 +281,11 @@ pub fn line_type_nb_ranges(input: &str, types: &[pasfmt_core::prelude::LogicalLi
     let nb = NbIndex::new(input);
     let mut out = vec![];
     for l in &p.lines {
-        if types.contains(&l.get_line_type()) {
+        // routine-like: RoutineHeader lines, and any line holding a procedural type / anonymous
+        // routine header (a `function`/`procedure` keyword followed by a parameter list)
+        let routine_like = types.contains(&LogicalLineType::RoutineHeader)
+            && l.get_tokens().iter().any(|&t| matches!(p.tokens.get(t).map(|t| t.get_token_type()), Some(TokenType::Keyword(KeywordKind::Function | KeywordKind::Procedure))));
+        if types.contains(&l.get_line_type()) || routine_like {
             if let (Some(&a), Some(&b)) = (l.get_tokens().first(), l.get_tokens().last()) {
                 if let (Some(sa), Some(sb)) = (spans.get(a), spans.get(b)) {
                     // include a trailing comment on the same line: extend to the next token start
